@@ -178,10 +178,141 @@ def v_padded_batch_client_datasets(p):
   p.verify('padded_batch_client_datasets', eng, body)
 
 
+Item = z3.DeclareSort('Item')
+ItemSeq = z3.SeqSort(Item)
+ITEM = Codec(Item, enc=lambda v: v, dec=lambda t: t)
+
+
+def v_repeatable(p):
+  ex_init = p.extract(FD, 'RepeatableIterator.__init__')
+  ex_next = p.extract(FD, 'RepeatableIterator.__next__')
+  ex_iter = p.extract(FD, 'RepeatableIterator.__iter__')
+  eng = Engine()
+  base = z3.Const('base', ItemSeq)
+  empty = z3.Empty(ItemSeq)
+
+  # __init__, general iterable (generator, range, ...): copying mode
+  def body_init_gen(ctx):
+    src = ctx.alloc(IterCell(base, ITEM, 0, owner='param', label='base'))
+    ctx.modifies.add(src.addr)  # a one-pass iterator is consumed by design
+    selfr = ctx.alloc(ObjCell(None, {}, label='self'))
+    ctx.init_stack.append(selfr.addr)
+    kind, _ = eng.run_function(ctx, ex_init.funcv(), [selfr, src])
+    ctx.oblige('noraise', kind == 'return')
+    f = ctx.heap[selfr.addr].fields
+    ok = all(k in f for k in ('_first_pass', '_iter', '_buf'))
+    ctx.oblige('fields', ok)
+    if not ok:
+      return
+    ctx.oblige('rep.init.copying', zbool(f['_first_pass']),
+               detail='a general iterable is copied during the first pass')
+    it, buf = f['_iter'], f['_buf']
+    okb = isinstance(buf, Ref) and isinstance(buf.cell(ctx), (ListCell, PyListCell)) \
+        and buf.cell(ctx).owner == 'local'
+    ctx.oblige('rep.init.buf', okb and to_z3(eng.length(ctx, buf)) == 0,
+               detail='the buffer is a fresh empty list')
+    oki = isinstance(it, Ref) and isinstance(it.cell(ctx), IterCell)
+    ctx.oblige('rep.init.iter', oki and it.cell(ctx).cur_seq(ctx).eq(base)
+               and to_z3(it.cell(ctx).pos) == 0,
+               detail='iteration starts at the beginning of the base iterable')
+
+  p.verify('RepeatableIterator.__init__', eng, body_init_gen)
+
+  # __init__, builtin container (list): no copy, never mutated
+  def body_init_list(ctx):
+    lst = ctx.alloc(ListCell(base, ITEM, owner='param', label='base'))
+    selfr = ctx.alloc(ObjCell(None, {}, label='self'))
+    ctx.init_stack.append(selfr.addr)
+    kind, _ = eng.run_function(ctx, ex_init.funcv(), [selfr, lst])
+    ctx.oblige('noraise', kind == 'return')
+    f = ctx.heap[selfr.addr].fields
+    ok = all(k in f for k in ('_first_pass', '_iter', '_buf'))
+    ctx.oblige('fields', ok)
+    if not ok:
+      return
+    ctx.oblige('rep.init.nocopy', znot(zbool(f['_first_pass'])),
+               detail='builtin containers are replayed from themselves (never appended to)')
+    ctx.oblige('rep.init.nocopy.buf', isinstance(f['_buf'], Ref) and f['_buf'].addr == lst.addr)
+    it = f['_iter']
+    oki = isinstance(it, Ref) and isinstance(it.cell(ctx), IterCell)
+    ctx.oblige('rep.init.nocopy.iter', oki and it.cell(ctx).cur_seq(ctx).eq(base)
+               and to_z3(it.cell(ctx).pos) == 0)
+
+  p.verify('RepeatableIterator.__init__[list]', eng, body_init_list)
+
+  # __next__ under the class invariant
+  #   first pass:  _iter walks `base`, _buf == base[0:pos]
+  #   later pass:  _iter walks the current content of _buf
+  fp = z3.Bool('first_pass')
+  pos = z3.Int('pos')
+  bufseq = z3.Const('buf', ItemSeq)
+
+  def body_next(ctx):
+    ctx.model_vars.update(first_pass=fp, pos=pos)
+    first = ctx.branch(fp)
+    buf = ctx.alloc(ListCell(bufseq, ITEM, label='_buf'))
+    if first:
+      it = ctx.alloc(IterCell(base, ITEM, pos, label='_iter'))
+      ctx.assume(z3.And(0 <= pos, pos <= z3.Length(base), bufseq == z3.SubSeq(base, 0, pos)))
+      cur = base
+    else:
+      it = ctx.alloc(IterCell(None, ITEM, pos, label='_iter', src=buf))
+      ctx.assume(z3.And(0 <= pos, pos <= z3.Length(bufseq)))
+      cur = bufseq
+    selfr = ctx.alloc(ObjCell(None, dict(_first_pass=first, _iter=it, _buf=buf),
+                              owner='param', label='self'))
+    ctx.modifies.add(selfr.addr)
+    kind, r = eng.run_function(ctx, ex_next.funcv(), [selfr])
+    f = ctx.heap[selfr.addr].fields
+    nb = f['_buf'].cell(ctx).seq
+    nit = f['_iter'].cell(ctx)
+    if kind == 'return':
+      ctx.oblige('rep.next.item', z3.And(pos < z3.Length(cur), r == cur[pos]),
+                 detail='returns the next item of the current pass')
+      ctx.oblige('rep.next.advance', z3.And(nit.cur_seq(ctx) == (base if first else nb),
+                                            to_z3(nit.pos) == pos + 1))
+      ctx.oblige('rep.inv', (nb == z3.SubSeq(base, 0, pos + 1)) if first else (nb == bufseq),
+                 detail='first pass: the buffer holds exactly the items seen so far; later: unchanged')
+      ctx.oblige('rep.next.mode', zbool(f['_first_pass']) == z3.BoolVal(first))
+    else:
+      ctx.oblige('rep.stop', z3.And(r.name == 'StopIteration', pos >= z3.Length(cur)),
+                 detail='StopIteration exactly at the end of the pass')
+      ctx.oblige('rep.stop.reset', z3.And(znot(zbool(f['_first_pass'])),
+                                          nit.src is not None and nit.src.addr == f['_buf'].addr,
+                                          to_z3(nit.pos) == 0),
+                 detail='after a pass the iterator is re-seated at the start of the buffer')
+      ctx.oblige('rep.replay', nb == cur,
+                 detail='the buffer now equals all items of the pass that just ended, so every later pass replays it')
+
+  p.verify('RepeatableIterator.__next__', eng, body_next)
+
+  def body_iter(ctx):
+    selfr = ctx.alloc(ObjCell(None, {}, owner='param', label='self'))
+    kind, r = eng.run_function(ctx, ex_iter.funcv(), [selfr])
+    ctx.oblige('rep.iter.self', kind == 'return' and isinstance(r, Ref) and r.addr == selfr.addr)
+
+  p.verify('RepeatableIterator.__iter__', eng, body_iter)
+
+
 def build(p):
   D = 'native/C15.py'
+  p.native('RepeatableIterator', D, 'rep')
+  v_repeatable(p)
   p.native('padded_batch_client_datasets', D, 'pbcd')
   v_padded_batch_client_datasets(p)
+  p.native_checks = [
+      dict(name='buffered_shuffle', driver=D, payload={'mode': 'sweep', 'fn': 'bshuf'},
+           bound='stream lengths 0..11, buffer sizes 1..14, 3 seeds: output is a permutation of the '
+                 'input and is reproducible for a fixed seed',
+           why_bounded='multiset invariant of the swap-with-random-slot loop is not yet under contract '
+                       '(needs a COUNT theory with list-update lemmas); bounded stand-in, not counted as proved'),
+      dict(name='buffered_shuffle_batch_client_datasets', driver=D,
+           payload={'mode': 'sweep', 'fn': 'bsbcd'},
+           bound='7 client-size lists x batch sizes {1,2,3,5} x buffer sizes {1,2,4,50}: every example '
+                 'exactly once, full batches except the last, preprocessor applied once',
+           why_bounded='depends on buffered_shuffle; bounded stand-in, not counted as proved'),
+  ]
+  p.not_covered.append('"in a non-trivial order" (a statement about the RNG)')
   p.trust('FLAT(datasets, k): ghost concatenation of the first k datasets (recursive definition as two axioms)',
           'TABLE contracts of slice_examples / attach_mask / pad_examples / num_examples are the ones proved in C03; '
           'concat_examples: rows concatenated in list order (dict-level proof: see C15 concat section)')
